@@ -444,7 +444,15 @@ def _entry_conditions(ctx, run, fin):
                  c.func.id == '_cleanup_network']
         if not calls:
             continue
-        graph = C.CFG(func.raw.body, func)
+        # (named booleans read back into their tests - the one local
+        # normalisation that does not move code between routines)
+        import copy
+        from .. import inline as I
+        src_def = I.fold_test_flags(copy.deepcopy(func.raw))
+        calls = [c for c in K.calls(src_def)
+                 if isinstance(c.func, ast.Name) and
+                 c.func.id == '_cleanup_network']
+        graph = C.CFG(src_def.body, func)
 
         def shared(edge):
             for atom in nz.facts_of_edge(edge):
